@@ -107,6 +107,9 @@ def run(ctx, model_ok=True):
                 lines.append(f"malform m{k} fields {rng.randrange(1 << 30)} {fs} {lab} {b} {min(16, base + span - b)}"); k += 1
     for lang in ['applesoft', 'integer', 'merlin']:
         lines.append(f"malform m{k} tokfields 0 {lang}"); k += 1
+    for fs in ['dos3x', 'prodos', 'pascal', 'cpm', 'fat']:
+        for _ in range(1 if quick else 8):
+            lines.append(f"malform m{k} unpack {rng.randrange(1 << 30)} {fs}"); k += 1
     for proc in range(4):
         for mx in range(4):
             lines.append(f"dasmsweep s{k} {proc} {mx} {[0, 768, 65280][(proc + mx) % 3]}"); k += 1
